@@ -13,6 +13,18 @@ def showRes {α} (r : Res α) (f : α → String) : String :=
 def showPages (ps : List (Nat × Bytes)) : String :=
   ",".intercalate (ps.map fun (o, b) => s!"{o}:{toHex b}")
 
+/-- what the verifier does with a variant `g` of a signed file with digest `d0` and blobs `blobs0`:
+    `pass` iff the same blobs are located and the re-digest hashes the same stream; `any` when the
+    PKCS#7 blobs themselves differ (their verification is outside the model) -/
+def verdictOf (d0 : Digest) (blobs0 : List Bytes) (g : Bytes) : String :=
+  match locate g with
+  | .ok blobs =>
+    if blobs ≠ blobs0 then "any"
+    else match DigestPE g with
+      | .ok d => if d.hashed = d0.hashed then "pass" else "fail"
+      | _ => "fail"
+  | _ => "fail"
+
 def handle : List String → String
   | ["digest", fhex, ph] =>
     match fromHex fhex with
@@ -59,19 +71,24 @@ def handle : List String → String
             match p.toNat?, b.toNat? with
             | some pos, some byte =>
               let g := f.set pos (UInt8.ofNat byte)
-              if g = f then "same" else
-              match locate g with
-              | .ok blobs =>
-                if blobs ≠ blobs0 then "any"          -- the PKCS#7 blob itself changed: outside the model
-                else match DigestPE g with
-                  | .ok d => if d.hashed = d0.hashed then "pass" else "fail"
-                  | _ => "fail"
-              | _ => "fail"
+              if g = f then "same" else verdictOf d0 blobs0 g
             | _, _ => "bad"
           | _ => "bad"
         let prot := s!"ck={d0.m.peStart + 88} dd={d0.m.posDDCert} orig={d0.origSize} cs={d0.certStart}"
         s!"ok {" ".intercalate (muts.map one)} #{prot}"
       | _, _ => "err unsigned-or-bad"
+  -- semantic mutation: bytes appended after the certificate table, the (unsigned) table size field enlarged by `grow`
+  | ["append", fhex, extrahex, grow] =>
+    match fromHex fhex, fromHex extrahex, grow.toNat? with
+    | some f, some extra, some gr =>
+      match DigestPE f, locate f with
+      | .ok d0, .ok blobs0 =>
+        let szOff := d0.m.posDDCert + 4
+        let newSize := (d0.m.certSize + gr) % 2 ^ 32
+        let g := (f.take szOff ++ leBytes 4 newSize ++ f.drop (szOff + 4)) ++ extra
+        s!"ok {verdictOf d0 blobs0 g}"
+      | _, _ => "err unsigned-or-bad"
+    | _, _, _ => "bad-op"
   | ["locate", fhex] =>
     match fromHex fhex with
     | none => "bad-op"
